@@ -119,7 +119,8 @@ theorem newLoop_correct (needle : Slice) (i : Nat) (masks : Vector Mask 256) (c 
     rw [e]
     refine ih ((1 : Mask) <<< i.toUInt16) c ?_
     intro b j hj
-    show tb (maskAt (maskSet masks (needle.getD i) _) b) j = _
+    show tb (maskAt (maskSet masks (needle.getD i)
+      (maskAt masks (needle.getD i) &&& ~~~((1 : Mask) <<< i.toUInt16))) b) j = _
     rw [maskAt_maskSet]
     by_cases hb : needle.getD i = b
     · simp only [hb, if_true, tb_and, tb_not, tb_one_shl i j hi16, hj, decide_true,
@@ -165,5 +166,222 @@ theorem Finder.new_correct (needle : Slice) (c : Ctr) :
       have e : max 0 needle.len = needle.len := by omega
       rw [e] at hm
       exact ⟨rfl, by omega, hm⟩
+
+/-! ### suffixes and occurrences, on slices -/
+
+/-- `needle[..j]` is a suffix of `hay[..i]` -/
+def Suf (needle hay : Slice) (i j : Nat) : Prop :=
+  j ≤ i ∧ ∀ k, k < j → hay.getD (i - j + k) = needle.getD k
+
+/-- the needle occurs in the haystack at offset `q` (slice form of `Spec.OccAt`) -/
+def OccS (needle hay : Slice) (q : Nat) : Prop :=
+  q + needle.len ≤ hay.len ∧ ∀ k, k < needle.len → hay.getD (q + k) = needle.getD k
+
+theorem suf_zero (needle hay : Slice) (i : Nat) : Suf needle hay i 0 :=
+  ⟨Nat.zero_le _, fun k hk => by omega⟩
+
+theorem suf_succ (needle hay : Slice) (i j : Nat) (hj : 1 ≤ j) :
+    Suf needle hay (i + 1) j ↔ Suf needle hay i (j - 1) ∧ hay.getD i = needle.getD (j - 1) := by
+  constructor
+  · rintro ⟨h1, h2⟩
+    refine ⟨⟨by omega, fun k hk => ?_⟩, ?_⟩
+    · have := h2 k (by omega)
+      have e : i + 1 - j + k = i - (j - 1) + k := by omega
+      rw [e] at this; exact this
+    · have := h2 (j - 1) (by omega)
+      have e : i + 1 - j + (j - 1) = i := by omega
+      rw [e] at this; exact this
+  · rintro ⟨⟨h1, h2⟩, h3⟩
+    refine ⟨by omega, fun k hk => ?_⟩
+    by_cases hk' : k = j - 1
+    · subst hk'
+      have e : i + 1 - j + (j - 1) = i := by omega
+      rw [e]; exact h3
+    · have := h2 k (by omega)
+      have e : i + 1 - j + k = i - (j - 1) + k := by omega
+      rw [e]; exact this
+
+theorem suf_len_iff (needle hay : Slice) (i : Nat) (hi : i ≤ hay.len) (hn : needle.len ≤ i) :
+    Suf needle hay i needle.len ↔ OccS needle hay (i - needle.len) := by
+  unfold Suf OccS
+  constructor
+  · rintro ⟨_, h2⟩; exact ⟨by omega, h2⟩
+  · rintro ⟨_, h2⟩; exact ⟨hn, h2⟩
+
+theorem occAt_iff_occS {needle hay : Slice} (hvn : needle.Valid) (hvh : hay.Valid) (q : Nat) :
+    Spec.OccAt hay.toArray needle.toArray q ↔ OccS needle hay q := by
+  unfold Spec.OccAt OccS
+  rw [Slice.toArray_size hvh, Slice.toArray_size hvn]
+  constructor
+  · rintro ⟨h1, h2⟩
+    refine ⟨h1, fun k hk => ?_⟩
+    have := h2 k hk
+    rw [Slice.toArray_getElem? hvh (q + k) (by omega), Slice.toArray_getElem? hvn k hk] at this
+    exact Option.some.inj this
+  · rintro ⟨h1, h2⟩
+    refine ⟨h1, fun k hk => ?_⟩
+    rw [Slice.toArray_getElem? hvh (q + k) (by omega), Slice.toArray_getElem? hvn k hk,
+      h2 k hk]
+
+/-- `r` is the leftmost occurrence, if any -/
+def LeftRes (needle hay : Slice) : Option Nat → Prop
+  | none => ∀ q, ¬ OccS needle hay q
+  | some r => OccS needle hay r ∧ ∀ q, q < r → ¬ OccS needle hay q
+
+theorem LeftRes.eq_spec {needle hay : Slice} (hvn : needle.Valid) (hvh : hay.Valid)
+    {r : Option Nat} (h : LeftRes needle hay r) :
+    r = Spec.leftmost hay.toArray needle.toArray := by
+  cases r with
+  | none =>
+    symm
+    rw [Spec.leftmost_eq_none_iff]
+    intro q hq
+    exact h q ((occAt_iff_occS hvn hvh q).mp hq)
+  | some r =>
+    symm
+    rw [Spec.leftmost_eq_some_iff]
+    exact ⟨(occAt_iff_occS hvn hvh r).mpr h.1,
+      fun q hq ho => h.2 q hq ((occAt_iff_occS hvn hvh q).mp ho)⟩
+
+/-! ### the search loop -/
+
+/-- one step of the bitap automaton keeps the invariant -/
+theorem step_inv {needle hay : Slice} {f : Finder} (hf : f.For needle) (i : Nat) (R : Mask)
+    (hinv : ∀ j, j ≤ needle.len → (tb R j = false ↔ Suf needle hay i j)) :
+    ∀ j, j ≤ needle.len →
+      (tb ((R ||| maskAt f.masks (hay.getD i)) <<< 1) j = false ↔ Suf needle hay (i + 1) j) := by
+  intro j hj
+  have hl := hf.len_le
+  rw [tb_shl1]
+  by_cases hj0 : j = 0
+  · subst hj0
+    simp [suf_zero]
+  · have h16 : j < 16 := by omega
+    have h1 : 1 ≤ j := by omega
+    have hjn : j - 1 < needle.len := by omega
+    rw [suf_succ needle hay i j h1, ← hinv (j - 1) (by omega), tb_or,
+      hf.masks (hay.getD i) (j - 1) (by omega)]
+    simp only [h16, h1, hjn, decide_true, Bool.true_and]
+    cases tb R (j - 1)
+    · simp
+      exact eq_comm
+    · simp
+
+theorem findLoop_correct {needle hay : Slice} {f : Finder} (hf : f.For needle)
+    (hn : 1 ≤ needle.len) (i : Nat) (R : Mask) (c : Ctr) (hi : i ≤ hay.len)
+    (hinv : ∀ j, j ≤ needle.len → (tb R j = false ↔ Suf needle hay i j))
+    (hno : ∀ q, q + needle.len ≤ i → ¬ OccS needle hay q) :
+    ∃ r, findLoop f hay i R c = .ok r c ∧ LeftRes needle hay r := by
+  fun_induction findLoop f hay i R generalizing c with
+  | case1 i R hlt byte R1 R2 ih =>
+    have hl := hf.len_le
+    have hn16 : f.needleLen < 16 := by rw [hf.len_eq]; omega
+    have hstep : ∀ j, j ≤ needle.len → (tb R2 j = false ↔ Suf needle hay (i + 1) j) :=
+      step_inv hf i R hinv
+    have hcond : (R2 &&& ((1 : Mask) <<< f.needleLen.toUInt16) == 0) = !tb R2 f.needleLen :=
+      and_bit_eq_zero _ _ hn16
+    simp only [bind, shl1_ok _ hn16, pure]
+    simp only [M.bind, M.pure, hcond]
+    by_cases hbit : tb R2 f.needleLen = false
+    · have hsuf := (hstep needle.len (Nat.le_refl _)).mp (by rw [← hf.len_eq]; exact hbit)
+      have hle : needle.len ≤ i + 1 := hsuf.1
+      have hocc := (suf_len_iff needle hay (i + 1) (by omega) hle).mp hsuf
+      refine ⟨some (i + 1 - needle.len), ?_, hocc, ?_⟩
+      · have hbit2 : tb R2 needle.len = false := by rw [← hf.len_eq]; exact hbit
+        simp only [csub, hf.len_eq, hle, hbit2, Bool.not_false, if_true, pure]
+        rfl
+      · intro q hq; exact hno q (by omega)
+    · have hns : ¬ Suf needle hay (i + 1) needle.len := fun hs =>
+        hbit (by rw [hf.len_eq]; exact (hstep needle.len (Nat.le_refl _)).mpr hs)
+      obtain ⟨r, hr, hres⟩ := ih c (by omega) hstep (fun q hq ho => by
+        by_cases hq' : q + needle.len ≤ i
+        · exact hno q hq' ho
+        · apply hns
+          have e : q = i + 1 - needle.len := by omega
+          rw [e] at ho
+          exact (suf_len_iff needle hay (i + 1) (by omega) (by omega)).mpr ho)
+      refine ⟨r, ?_, hres⟩
+      have hbit' : tb R2 f.needleLen = true := by simpa using hbit
+      simp only [hbit', Bool.not_true, Bool.false_eq_true, if_false]
+      exact hr
+  | case2 i R hge =>
+    refine ⟨none, rfl, ?_⟩
+    intro q hq
+    exact hno q (by have := hq.1; omega) hq
+
+/-! ### master theorems -/
+
+/-- `let mut result = !1`: only bit 0 is clear, and only the empty prefix is a suffix of the
+empty haystack prefix -/
+theorem init_inv (needle hay : Slice) (hl : needle.len ≤ 15) :
+    ∀ j, j ≤ needle.len → (tb (~~~(1 : Mask)) j = false ↔ Suf needle hay 0 j) := by
+  intro j hj
+  have h16 : j < 16 := by omega
+  rw [tb_not, tb_one]
+  unfold Suf
+  by_cases hj0 : j = 0
+  · subst hj0; simp
+  · simp [h16, hj0]
+
+/-- **C12 (search)** For a finder built for `needle` (`needle.len() <= 15`) and any haystack,
+`find` returns the leftmost occurrence, never faults and does not touch the counter. -/
+theorem Finder.find_correct {needle hay : Slice} (hvn : needle.Valid) (hvh : hay.Valid)
+    {f : Finder} (hf : f.For needle) (c : Ctr) :
+    f.find hay c = .ok (Spec.leftmost hay.toArray needle.toArray) c := by
+  unfold Finder.find
+  by_cases h0 : f.needleLen = 0
+  · have hr : LeftRes needle hay (some 0) := by
+      have hn : needle.len = 0 := by rw [← hf.len_eq]; exact h0
+      refine ⟨⟨by omega, fun k hk => by omega⟩, fun q hq => by omega⟩
+    rw [← hr.eq_spec hvn hvh]
+    simp [h0]
+  · have hn : 1 ≤ needle.len := by rw [← hf.len_eq]; omega
+    obtain ⟨r, hrun, hres⟩ := findLoop_correct (hay := hay) hf hn 0 (~~~(1 : Mask)) c
+      (Nat.zero_le _) (init_inv needle hay hf.len_le) (fun q hq => by omega)
+    rw [← hres.eq_spec hvn hvh]
+    simp only [beq_iff_eq, h0, if_false]
+    exact hrun
+
+/-- **C12** `Finder::new(needle)` then `find(haystack)`: for every needle of at most 15 bytes
+and every haystack, the finder is built and returns `Spec.leftmost`; no fault. -/
+theorem shiftOr_correct (needle hay : Slice) (hvn : needle.Valid) (hvh : hay.Valid)
+    (hlen : needle.len ≤ 15) (c : Ctr) :
+    ∃ f, Finder.new needle c = .ok (some f) c ∧
+      f.find hay c = .ok (Spec.leftmost hay.toArray needle.toArray) c := by
+  obtain ⟨r, hrun, hnone, hfor⟩ := Finder.new_correct needle c
+  cases r with
+  | none => have := hnone.mp rfl; omega
+  | some f => exact ⟨f, hrun, Finder.find_correct hvn hvh (hfor f rfl) c⟩
+
+/-- **C12** `Finder::new(needle)` is `None` iff `needle.len() > 15` (`MAX_NEEDLE_LEN`) -/
+theorem new_eq_none_iff (needle : Slice) (c : Ctr) :
+    Finder.new needle c = .ok none c ↔ needle.len > 15 := by
+  obtain ⟨r, hrun, hnone, _⟩ := Finder.new_correct needle c
+  rw [hrun]
+  constructor
+  · intro h
+    injection h with h1 _
+    exact hnone.mp h1
+  · intro h
+    rw [hnone.mpr h]
+
+/-- **C12** the empty needle matches at offset 0 -/
+theorem find_empty (needle hay : Slice) (h : needle.len = 0) (c : Ctr) :
+    ∃ f, Finder.new needle c = .ok (some f) c ∧ f.find hay c = .ok (some 0) c := by
+  obtain ⟨r, hrun, hnone, hfor⟩ := Finder.new_correct needle c
+  cases r with
+  | none => have := hnone.mp rfl; omega
+  | some f =>
+    refine ⟨f, hrun, ?_⟩
+    have := (hfor f rfl).len_eq
+    simp [Finder.find, this, h]
+
+/-- the hypotheses of `shiftOr_correct` are satisfiable: needle `"aba"` in `"xababa"` -/
+example : ∃ f, Finder.new (Slice.ofMem ⟨1, 64, #[97, 98, 97]⟩) {} = .ok (some f) {} ∧
+    f.find (Slice.ofMem ⟨0, 4096, #[120, 97, 98, 97, 98, 97]⟩) {} =
+      .ok (Spec.leftmost #[120, 97, 98, 97, 98, 97] #[97, 98, 97]) {} :=
+  shiftOr_correct (Slice.ofMem ⟨1, 64, #[97, 98, 97]⟩)
+    (Slice.ofMem ⟨0, 4096, #[120, 97, 98, 97, 98, 97]⟩)
+    (Nat.le_of_eq (Nat.zero_add _)) (Nat.le_of_eq (Nat.zero_add _)) (by decide) {}
 
 end Memchr.ShiftOr
